@@ -29,6 +29,7 @@ type vfStreamCase struct {
 	Chunks [][][]int `json:"chunks"` // chunks of pieces <<k, n>>
 	Tools  bool      `json:"tools"`
 	Fail   int       `json:"fail"` // the runner fails after this many chunks; -1 = never; -2 = after its final record
+	Reason string    `json:"reason"` // done reason of the runner's final record: "" = stop, "length"
 }
 
 var vfPieceText = map[[2]int]string{
@@ -223,7 +224,11 @@ func vfStreamRun(v *vfSrv, c vfStreamCase) map[string]any {
 		if c.Fail >= 0 {
 			return errors.New("vf: runner died")
 		}
-		fn(llm.CompletionResponse{Done: true, DoneReason: llm.DoneReasonStop, PromptEvalCount: 3, EvalCount: 5})
+		reason := llm.DoneReasonStop
+		if c.Reason == "length" {
+			reason = llm.DoneReasonLength
+		}
+		fn(llm.CompletionResponse{Done: true, DoneReason: reason, PromptEvalCount: 3, EvalCount: 5})
 		return nil
 	}
 	v.mu.Unlock()
